@@ -12,11 +12,14 @@ PROP = "C18"
 PROPS_FILE = "Props/C18.v"
 PINS = {
     "C18_parse_toks": "forall a, wf_ast a -> parse_toks (toks a) = Some (canon a)",
+    "C18_parse_toks_reachable": "forall ts a, parse_toks ts = Some a -> no_bare_required a -> parse_toks (toks a) = Some (canon a)",
     "C18_canon_idem": "forall a, canon (canon a) = canon a",
     "C18_toks_canon": "forall a, toks (canon a) = toks a",
     "C18_print_canon": "forall a, print (canon a) = print a",
     "C18_indent": "forall ind a, (forall n, n <= 12 -> ind n = indent_real n) -> print_with ind a = print a",
     "C18_required_field_refuted": "parse_toks (tokenize",
+    "C18_print_tokens_partial": "forall t, lex_ty t = true -> tokenize (pr_ty t ++ \";\") = (toks_ty t false ++ [TP PTerm])%list",
+    "C18_imports_permuted": "forall a, Permutation (s_imports (canon a)) (s_imports a)",
 }
 MODEL_FILES = ["Schema/Printer.v", "Schema/Lexer.v", "Schema/Parser.v", "Schema/Span.v"]
 SIZES = {"quick": (8000, 8), "thorough": (160000, 16)}
@@ -58,12 +61,17 @@ def repo_files(prop):
             if f.endswith(".aldrin"):
                 paths.append(os.path.join(root, f))
     paths.sort()
+    nrepo = len(paths)
+    # stored failing inputs run with every check (DESIGN 1.2: the corpus runs first)
+    cdir = os.path.join(core.VERIF, "corpus", prop)
+    if os.path.isdir(cdir):
+        paths = sorted(os.path.join(cdir, f) for f in os.listdir(cdir) if f.endswith(".aldrin")) + paths
     d = os.path.join(core.WORK, prop)
     os.makedirs(d, exist_ok=True)
     lst = os.path.join(d, "files.txt")
     with open(lst, "w") as f:
         f.write("\n".join(paths) + "\n")
-    return lst, len(paths)
+    return lst, nrepo
 
 
 def run_harness(o, cmds_dirs):
@@ -315,7 +323,8 @@ def replay_common(prop, mode, path):
     run_model(o, [d])
     print("---- model vs implementation ----")
     for c, i, m in zip(open(f"{d}/cases.txt"), open(f"{d}/impl.txt"), open(f"{d}/model.txt")):
-        print(f"{c.split(' ', 1)[0]}: {'agree' if i == m else 'DIFFER'} impl={i.strip()[:120]} model={m.strip()[:120]}")
+        verdict = "skipped (real code panicked)" if i.strip() == "-" else ("model abstains" if m.strip() == "unk" else ("agree" if i == m else "DIFFER"))
+        print(f"{c.split(' ', 1)[0]}: {verdict} impl={i.strip()[:120]} model={m.strip()[:120]}")
     return 0
 
 
